@@ -591,7 +591,7 @@ ROLE_BY_NAME = {
     "num": "NUM", "num_concurrent": "NCONC", "arg_iter": "ITER", "args_iter": "ITER", "kwargs_iter": "ITER", "arg_stars": "STARS",
     "end_callback": "END", "_end_callback": "END", "actual_end_callback": "END", "cancel_callback": "CANCEL", "_cancel_callback": "CANCEL",
     "return_exceptions": "RETEXC", "task_id": "ID", "awaitable": "CORO", "coroutine": "CORO", "msg": "MSG", "ignore_lock": "IGNLOCK",
-    "map_semaphore": "MAPSEM", "semaphore": "MAPSEM", "pool_size": "SIZE", "name": "NAME",
+    "map_semaphore": "MAPSEM", "semaphore": "MAPSEM",
 }
 CUSTOM_CB_ROLE = {"_task_ending": "END", "_task_cancellation": "CANCEL"}
 
@@ -663,6 +663,8 @@ def r_wiring(ctx: Ctx, rule: str, roles: Set[str], floor: int, what: str):
                 init = ctx.prog.lookup(cal.cls, "__init__") if cal.cls is not None else None
                 targets = [init] if init is not None else []
             for t in targets:
+                if not (ctx.in_pool(t) or t.module.name == "internals.helpers"):
+                    continue
                 for pname in t.param_names():
                     prole = param_role(t, pname)
                     arg = ctx.call_arg(node, t, pname)
